@@ -91,6 +91,9 @@ class Sem:
     BRACKET_CHARS = ["'('", "')'", "'['", "']'", "'{'", "'}'", "'\"'", "';'", "','", "'?'", "':'", "L'('", "'\\\\'"]
     BRACKET_STRS = ['"("', '")"', '"f("', '"a)b"', '"[{("', '"}])"', '"\\"("', '"\\\\"', '";"', '"/*"', '"//"', '"\'"']
 
+    # runs of adjacent string literals with empty pieces in every position (typical after macro expansion)
+    ADJ_STRS = ['"abc" "" "d"', '"x" ""', '"" "y"', '"" "" "e" ""', '"id=%d" "" "\\n"', '"a\\"" "" "\\"b"', '"" ""']
+
     def fconst(self):
         return self.r.choice(["1.5", ".5", "2.", "1e3", "1.5e-3", "2.5f", "3.0L", "1E+2", "0x1.8p3", "0x1p-2f", "10e1F", "0.0", "09.5", "08e1", "019.", "0078.25f", "1e5f", "2E-3l"])
 
@@ -308,7 +311,7 @@ class Sem:
         if c < 0.89:
             return f"{ind}union val {nm} = {{ .f = {self.fconst()} }};"
         if c < 0.92:
-            return f"{ind}const char *{nm} = " + r.choice(['"str"', '"a" "b" "c"', '"esc\\t\\"q\\"\\\\ \\x41\\101"', '""']) + ";"
+            return f"{ind}const char *{nm} = " + r.choice(['"str"', '"a" "b" "c"', '"esc\\t\\"q\\"\\\\ \\x41\\101"', '""'] + self.ADJ_STRS) + ";"
         if c < 0.95:
             return f"{ind}typedef {r.choice(INT_TYPES)} {nm}_t; {nm}_t {nm} = {self.iconst()};" if not E["int"].append(nm) else ""
         if c < 0.97:
@@ -358,7 +361,7 @@ class Sem:
                 return f"{ind}{r.choice(E['pint'])} = {self.pint_expr(E, 1)};"
             return f"{ind}gi = {self.int_expr(E, 2)};"
         if k == "call":
-            return ind + r.choice(["fv();", f"(void)fi({self.int_expr(E, 1)}, 2);", f"fvar(\"%d %s\", {self.int_expr(E, 1)}, \"s\");",
+            return ind + r.choice(["fv();", f"(void)fi({self.int_expr(E, 1)}, 2);", f"fvar(\"%d %s\", {self.int_expr(E, 1)}, \"s\");", f"fvar(\"id=\" \"\" \"%d\", {self.int_expr(E, 1)});", f"fvar({r.choice(self.ADJ_STRS)});",
                                    f"grec.a = mkpt(1, 2).y;", "(void)0;", f"gd = fd({self.flt_expr(E, 1)});"])
         if k == "empty":
             if r.random() < 0.3:
@@ -395,7 +398,10 @@ class Sem:
         if k == "fordecl":
             i = self.fresh("i")
             E2 = dict(E, int=E["int"] + [i])
-            extra = r.choice(["", f", *{i}p = &{i}", f", {i}a[2] = {{ 1, 2 }}"])
+            extra = r.choice(["", f", *{i}p = &{i}", f", {i}a[2] = {{ 1, 2 }}",
+                              # later declarators that contain declarations of their own (parameters, struct members)
+                              f", (*{i}f)(int a, int b) = fi, {i}r = {i}f({i}, 1)", f", {i}z = (int)sizeof(struct {{ char c; int v; }})",
+                              f", {i}q = (gi, 2), {i}m[2] = {{ [1] = 3 }}"])
             body = self.stmt(E2, d - 1, indent + 2, True, in_switch, ret, labels)
             return f"{ind}for (int {i} = 0{extra}; {i} < {self.iconst(True)}; {i}++)\n{body}"
         if k == "switch":
@@ -561,7 +567,7 @@ class Sem:
         if c < 0.66:
             return f"struct point {nm}[2] = {{ [1].x = {self.cexpr(1)}, [0] = {{ .y = 2 }} }};"
         if c < 0.72:
-            return f"static const char {nm}[] = \"text\" \"more\"; const char *const {nm}_p = {nm};"
+            return f"static const char {nm}[] = {r.choice(['\"text\" \"more\"'] + self.ADJ_STRS)}; const char *const {nm}_p = {nm}; const unsigned {nm}_w = sizeof(L\"ab\" L\"\" L\"c\");"
         if c < 0.78:
             return f"int (*{nm})(int) = fn1; fn_t {nm}_t[2] = {{ fn1, 0 }};"
         if c < 0.84:
